@@ -63,6 +63,22 @@ def one(cases, rng, tier, d, rep, dtname):
             n = int(np.prod(Msq))
             return tn.diagonal(dA.reshape(n, n)).reshape(Msq).clone()
         cases.append(Case(J("diagX", tt_tokens(A)), impl, chk_tt(box, dextract, dt, list(A.R), Msq, is_ttm=False), "diag/extract/" + tag, True))
+    if d <= 3:
+        # rectangular operators (tall and wide modes, |m - n| up to 3): the diagonal has min(m, n) entries per mode
+        Mr = [rng.choice([1, 2, 3, 5]) for _ in range(d)]
+        Nr = [max(1, m + rng.choice([-3, -2, 2, 3])) if rng.random() < 0.8 else m for m in Mr]
+        Ar = rand_tt(rng, Nr, rand_ranks(rng, d, 2), dt, M=Mr)
+        dAr = dense_of(Ar)
+        Kr = [min(m, n) for m, n in zip(Mr, Nr)]
+        box, impl = boxed(lambda Ar=Ar: torchtt.diag(Ar))
+
+        def dextract_r(dAr=dAr, Kr=Kr, d=d):
+            out = tn.zeros(Kr, dtype=dAr.dtype)
+            import itertools
+            for idx in itertools.product(*[range(k_) for k_ in Kr]):
+                out[idx] = dAr[idx + idx]
+            return out
+        cases.append(Case(None, impl, chk_tt(box, dextract_r, dt, list(Ar.R), Kr, is_ttm=False), "diag/extract-rectangular/" + tag, True, desc="diag of M=%s N=%s" % (Mr, Nr)))
     # --- mprod: single mode and list of modes
     k = rng.randrange(d)
     rows = rng.choice([r for r in range(1, 5) if r != N[k]] or [2])
